@@ -63,9 +63,16 @@ func knownCases() []tcase {
 		{Name: "kf-dhcp-shutdown", Note: "shutdown: no Accounting-Stop for live sessions", Kind: "dhcp", Path: "shutdown", Prefix: "acked", Second: "none", P: full},
 		{Name: "ok-dhcp-release-twice", Kind: "dhcp", Path: "release", Prefix: "renewed", Second: "seq:release", P: full},
 		{Name: "ok-dhcp-relay-release-then-expiry", Kind: "dhcp-relay", Path: "release", Prefix: "acked", Second: "seq:expiry", P: relay},
+		{Name: "ok-dhcp-expiry-rerequest", Note: "late renewal of a lapsed, not yet reaped lease: the session goes on under its Acct-Session-Id (seeded regression C16-A makes this a second Start without a Stop)", Kind: "dhcp", Path: "expiry-rerequest", Prefix: "acked", Second: "none", P: withShape(full, "renewing")},
+		{Name: "ok-dhcp-expiry-rerequest-initreboot", Kind: "dhcp-relay", Path: "expiry-rerequest", Prefix: "renewed", Second: "seq:expiry", P: withShape(relay, "initreboot")},
+		{Name: "ok-dhcp-release-rerequest", Kind: "dhcp", Path: "release-rerequest", Prefix: "acked", Second: "none", P: withShape(auth, "initreboot")},
+		{Name: "ok-dhcp-reboot-rediscover", Kind: "dhcp", Path: "reboot-rediscover", Prefix: "renewed", Second: "seq:release", P: full},
+		{Name: "ok-dhcp-replace-cpe", Note: "replacement CPE takes the lease over on the same circuit: the old MAC keeps nothing, one accounting session", Kind: "dhcp-relay", Path: "replace-cpe", Prefix: "acked", Second: "none", P: withMAC2(relay)},
+		{Name: "ok-dhcp-move-circuit", Note: "client renews through another port: the old circuit-id resolves to nothing", Kind: "dhcp-relay", Path: "move-circuit", Prefix: "acked", Second: "none", P: withCid2(relay)},
 		{Name: "kf-pppoe-lcp-term", Note: "LCP Terminate-Request on an established session: the address is never released", Kind: "pppoe", Path: "lcp-term", Prefix: "established", Second: "none", P: ppp},
 		{Name: "kf-pppoe-idle", Note: "idle sweep removes the session, the address stays allocated", Kind: "pppoe", Path: "idle", Prefix: "authed", Second: "none", P: ppp},
 		{Name: "kf-pppoe-auth-fail", Note: "re-authentication rejected, closed session reaped by the idle sweep, address stays allocated", Kind: "pppoe", Path: "auth-fail", Prefix: "established", Second: "none", P: ppp},
+		{Name: "ok-pppoe-second-padr", Note: "reconnect without PADT: the abandoned first session is reaped with its address, the second survives", Kind: "pppoe", Path: "second-padr", Prefix: "established", Second: "seq:padt", P: ppp},
 		{Name: "ok-pppoe-padt-twice", Kind: "pppoe", Path: "padt", Prefix: "established", Second: "seq:padt", P: ppp},
 		{Name: "kf-teardown-parked", Note: "admin terminate parked in sendPADT, client PADT meanwhile: two Accounting-Stops", Kind: "teardown", Path: "admin-id", Prefix: "established", Second: "parked:client-padt", ParkAt: "padt", P: full},
 		{Name: "kf-teardown-parked-maps", Kind: "teardown", Path: "client-padt", Prefix: "established", Second: "parked:coa-disconnect", ParkAt: "maps", P: full},
@@ -77,6 +84,10 @@ func knownCases() []tcase {
 		{Name: "ok-submgr-session-timeout", Kind: "submgr", Path: "session-timeout", Prefix: "active", Second: "none", P: sub},
 	}
 }
+
+func withShape(p params, shape string) params { p.ReqShape = shape; return p }
+func withMAC2(p params) params                { p.MAC2 = hexb{0x02, 0x16, 0x00, 0x00, 0x00, 0x30}; return p }
+func withCid2(p params) params                { p.Cid2 = hexb("eth 1/2/3:200"); return p }
 
 func TestReplayKnown(t *testing.T) {
 	dump := os.Getenv("C16_WRITE_REPLAYS")
